@@ -46,6 +46,123 @@ def _fn_ast(fn):
     return node
 
 
+# ------------------------------------------------------------------------------------------------
+# normalisation: private helper OBJECTS holding the state (`self._cache = _CachedValue()`), exposed through public
+# properties of the same names as before, are folded back: `self._cache.stale` -> `self.lp_needs_update`,
+# `cache = self._cache` aliases are resolved, `self._cache.invalidate()` / `cache.store(x)` are inlined (one level)
+# ------------------------------------------------------------------------------------------------
+import copy as _copy
+
+_HELPERS = {}
+
+
+def _helper_info(cls):
+    """-> (helpers {attribute: helper class}, alias {(attribute, field): public property name})"""
+    if cls in _HELPERS:
+        return _HELPERS[cls]
+    helpers, alias = {}, {}
+    for k in inspect.getmro(cls):
+        if not k.__module__.startswith("torchtree"):
+            continue
+        mod = sys.modules.get(k.__module__)
+        init = k.__dict__.get("__init__")
+        if inspect.isfunction(init):
+            try:
+                node = _fn_ast(init)
+                for sub in ast.walk(node):
+                    if (isinstance(sub, ast.Assign) and len(sub.targets) == 1 and _is_self_attr(sub.targets[0])
+                            and isinstance(sub.value, ast.Call) and isinstance(sub.value.func, ast.Name)):
+                        hc = getattr(mod, sub.value.func.id, None)
+                        if inspect.isclass(hc) and hc.__module__.startswith("torchtree") and not hasattr(hc, "handle_parameter_changed") \
+                                and not hasattr(hc, "fire_parameter_changed"):
+                            helpers.setdefault(sub.targets[0].attr, hc)
+            except (Unrec, OSError, TypeError, SyntaxError, IndentationError):
+                pass
+        for name, attr in k.__dict__.items():
+            if isinstance(attr, property) and attr.fget is not None:
+                try:
+                    node = _fn_ast(attr.fget)
+                except (Unrec, OSError, TypeError, SyntaxError, IndentationError):
+                    continue
+                body = [st for st in node.body if not (isinstance(st, ast.Expr) and isinstance(st.value, ast.Constant))]
+                if (len(body) == 1 and isinstance(body[0], ast.Return) and isinstance(body[0].value, ast.Attribute)
+                        and _is_self_attr(body[0].value.value)):
+                    alias.setdefault((body[0].value.value.attr, body[0].value.attr), name)
+    _HELPERS[cls] = (helpers, alias)
+    return helpers, alias
+
+
+class _Subst(ast.NodeTransformer):
+    def __init__(self, mapping):
+        self.mapping = mapping
+
+    def visit_Name(self, node):
+        if node.id in self.mapping:
+            return _copy.deepcopy(self.mapping[node.id])
+        return node
+
+
+def _norm_expr(e, helpers, alias, local):
+    class T(ast.NodeTransformer):
+        def visit_Attribute(self, node):
+            self.generic_visit(node)
+            if isinstance(node.value, ast.Name) and node.value.id in local:
+                node = ast.Attribute(value=ast.Attribute(value=ast.Name(id="self", ctx=ast.Load()), attr=local[node.value.id],
+                                                         ctx=ast.Load()), attr=node.attr, ctx=node.ctx)
+            if (isinstance(node.value, ast.Attribute) and _is_self_attr(node.value)
+                    and (node.value.attr, node.attr) in alias):
+                return ast.Attribute(value=ast.Name(id="self", ctx=ast.Load()), attr=alias[(node.value.attr, node.attr)], ctx=node.ctx)
+            return node
+    return T().visit(e)
+
+
+def _norm_block(stmts, helpers, alias, local):
+    out = []
+    for st in stmts:
+        # cache = self._cache
+        if (isinstance(st, ast.Assign) and len(st.targets) == 1 and isinstance(st.targets[0], ast.Name)
+                and _is_self_attr(st.value) and st.value.attr in helpers):
+            local[st.targets[0].id] = st.value.attr
+            continue
+        st = _norm_expr(st, helpers, alias, local)
+        # self._cache.method(args)  -> the helper method's body, inlined
+        if isinstance(st, ast.Expr) and isinstance(st.value, ast.Call) and isinstance(st.value.func, ast.Attribute) \
+                and _is_self_attr(st.value.func.value) and st.value.func.value.attr in helpers:
+            obj = st.value.func.value.attr
+            meth = helpers[obj].__dict__.get(st.value.func.attr)
+            if inspect.isfunction(meth):
+                try:
+                    mnode = _fn_ast(meth)
+                    params = [a.arg for a in mnode.args.args]
+                    mapping = {params[0]: ast.Attribute(value=ast.Name(id="self", ctx=ast.Load()), attr=obj, ctx=ast.Load())}
+                    for pn, av in zip(params[1:], st.value.args):
+                        mapping[pn] = av
+                    body = [_Subst(mapping).visit(_copy.deepcopy(b)) for b in mnode.body
+                            if not (isinstance(b, ast.Expr) and isinstance(b.value, ast.Constant)) and not isinstance(b, ast.Return)]
+                    out += _norm_block(body, helpers, alias, dict(local))
+                    continue
+                except (Unrec, OSError, TypeError, SyntaxError, IndentationError):
+                    pass
+        for field in ("body", "orelse", "finalbody"):
+            if isinstance(getattr(st, field, None), list) and not isinstance(st, (ast.FunctionDef, ast.Lambda)):
+                setattr(st, field, _norm_block(getattr(st, field), helpers, alias, local))
+        if isinstance(st, ast.Try):
+            for h in st.handlers:
+                h.body = _norm_block(h.body, helpers, alias, local)
+        out.append(st)
+    return out
+
+
+def _nfn(cls, fn):
+    """the function's AST with the state kept in private helper objects folded back onto the public attribute names"""
+    node = _fn_ast(fn)
+    helpers, alias = _helper_info(cls)
+    if helpers or alias:
+        node.body = _norm_block(node.body, helpers, alias, {})
+        ast.fix_missing_locations(node)
+    return node
+
+
 def _is_self_attr(e, name=None):
     return (isinstance(e, ast.Attribute) and isinstance(e.value, ast.Name) and e.value.id == "self"
             and (name is None or e.attr == name))
@@ -102,7 +219,7 @@ def _handler_stmts(cls, kind, name, owner, stmts, out, depth):
                 helper = _private_helper(cls, f)
                 if helper is not None and depth < 3:
                     # a private helper shared by the handlers (`self._invalidate()`): its body, inlined
-                    _handler_stmts(cls, kind, name, owner, _fn_ast(helper).body, out, depth + 1)
+                    _handler_stmts(cls, kind, name, owner, _nfn(cls, helper).body, out, depth + 1)
                     continue
                 raise Unrec("call of self." + f.attr)
             # super().handle_x(...)
@@ -128,7 +245,7 @@ def translate_handler(cls, kind, after=None, depth=0):
         return {"recognised": True, "sets": [], "tail": "raise", "note": f"{name} missing", "owner": None}
     out = {"recognised": True, "sets": [], "tail": "none", "note": "", "owner": owner.__name__}
     try:
-        _handler_stmts(cls, kind, name, owner, _fn_ast(fn).body, out, depth)
+        _handler_stmts(cls, kind, name, owner, _nfn(cls, fn).body, out, depth)
         out["sets"] = list(dict.fromkeys(out["sets"]))
     except (Unrec, OSError, TypeError, SyntaxError, IndentationError) as e:
         out["recognised"] = False
@@ -168,7 +285,7 @@ def _tests_and_clears(cls, node, depth=0, seen=None):
             if fn is not None:
                 seen.add(sub.attr)
                 try:
-                    t2, c2 = _tests_and_clears(cls, _fn_ast(fn), depth + 1, seen)
+                    t2, c2 = _tests_and_clears(cls, _nfn(cls, fn), depth + 1, seen)
                 except (Unrec, OSError, TypeError, SyntaxError, IndentationError):
                     continue
                 tested += t2
@@ -197,7 +314,7 @@ def guards_of(cls):
             seen.add(name)
             for fn in fns:
                 try:
-                    node = _fn_ast(fn)
+                    node = _nfn(cls, fn)
                 except (Unrec, OSError, TypeError, SyntaxError, IndentationError):
                     continue
                 tested, cleared = _tests_and_clears(cls, node)
@@ -223,7 +340,7 @@ def clears_after_success(cls):
                 continue
             seen.add(name)
             try:
-                node = _fn_ast(fn)
+                node = _nfn(cls, fn)
             except (Unrec, OSError, TypeError, SyntaxError, IndentationError):
                 continue
             flags = [_flag_of_test(sub.test) for sub in ast.walk(node)
@@ -272,7 +389,7 @@ def shared_flag_consistency(cls, dirty):
                 continue
             seen.add(name)
             try:
-                node = _fn_ast(fn)
+                node = _nfn(cls, fn)
             except (Unrec, OSError, TypeError, SyntaxError, IndentationError):
                 continue
 
@@ -679,6 +796,9 @@ def translate_setattr():
 # ------------------------------------------------------------------------------------------------
 # ELBO._call: which branch each (score, entropy, rank of the sample shape, last dimension == 1) takes
 # ------------------------------------------------------------------------------------------------
+ELBO_ROUTE = ["ast"]
+
+
 def _elbo_cond(e, env):
     """symbolic value (True / False / None) of a branch condition of ELBO._call"""
     if _is_self_attr(e, "score"):
@@ -742,11 +862,94 @@ def _elbo_block(stmts, env, cls=None, depth=0):
     return None
 
 
+def _elbo_branch_by_behaviour(score, entropy, rank, last1):
+    """the estimator ELBO computes for one cell of the finite domain, DERIVED from the behaviour of the real class driven
+    with stub p / q (public observables only): q.sample vs q.rsample, whether q.entropy() is consulted, and the value
+    on prescribed log-weights (multi-sample bound vs mean).  Where the two formulas coincide (K = 1) the label follows
+    the rank, as the model's `expected` does."""
+    import math
+
+    import torch
+
+    from torchtree.core.model import CallableModel
+    from torchtree.core.parameter import Parameter
+    from torchtree.distributions.distributions import DistributionModel
+    from torchtree.variational.kl import ELBO
+
+    shape = {(1, False): (3,), (1, True): (1,), (2, False): (2, 3), (2, True): (3, 1)}[(rank, last1)]
+    n = 1
+    for d_ in shape:
+        n *= d_
+    w = torch.tensor([0.25 * i * i - 0.5 * i for i in range(n)], dtype=torch.float64).reshape(shape)
+    calls = []
+    x = Parameter("x", torch.zeros(1, dtype=torch.float64))
+
+    class Q(DistributionModel):
+        def __init__(self):
+            super().__init__("q")
+            self.x = x
+
+        def rsample(self, sample_shape=torch.Size()):
+            calls.append("rsample")
+            self.x.tensor = torch.ones(1, dtype=torch.float64)
+
+        def sample(self, sample_shape=torch.Size()):
+            calls.append("sample")
+            self.x.tensor = torch.ones(1, dtype=torch.float64)
+
+        def log_prob(self, x=None):
+            return self._call()
+
+        def entropy(self):
+            calls.append("entropy")
+            return torch.tensor([0.125], dtype=torch.float64)
+
+        def _call(self, *a, **k):
+            return torch.zeros(shape, dtype=torch.float64)
+
+        def _sample_shape(self):
+            return torch.Size(shape)
+
+        @classmethod
+        def from_json(cls, data, dic):
+            raise NotImplementedError
+
+    class P(CallableModel):
+        def __init__(self):
+            super().__init__("p")
+            self.x = x
+
+        def _call(self, *a, **k):
+            return w
+
+        def _sample_shape(self):
+            return torch.Size(shape)
+
+        @classmethod
+        def from_json(cls, data, dic):
+            raise NotImplementedError
+
+    obj = ELBO(None, Q(), P(), torch.Size(shape), entropy=entropy, score=score)
+    v = float(obj())
+    if "sample" in calls:
+        return "score"
+    if "entropy" in calls:
+        return "analytic"
+    rows = w.reshape(-1, shape[-1])
+    multi = float((torch.logsumexp(rows, -1) - math.log(shape[-1])).mean())
+    mc = float(w.mean())
+    is_multi, is_mc = abs(v - multi) < 1e-12, abs(v - mc) < 1e-12
+    if is_multi and is_mc:
+        return "multi" if rank == 2 else "mc"
+    return "multi" if is_multi else "mc" if is_mc else "unknown"
+
+
 def translate_elbo_branches():
-    """-> (lean source, ok, table [(score, entropy, rank, last1, branch)])"""
+    """-> (lean source, ok, table [(score, entropy, rank, last1, branch)]); ELBO_ROUTE[0] says how the table was obtained"""
     from torchtree.variational.kl import ELBO
 
     table, ok, note = [], True, ""
+    ELBO_ROUTE[0] = "ast (symbolic evaluation of the branch conditions of ELBO._call)"
     try:
         node = _fn_ast(ELBO.__dict__["_call"])
         for score in (False, True):
@@ -760,6 +963,18 @@ def translate_elbo_branches():
     except (Unrec, OSError, TypeError, SyntaxError, KeyError) as e:
         ok, note = False, f"UNRECOGNISED {type(e).__name__}: {e}"
         table = [(s_, e_, r_, l_, "unknown") for s_ in (False, True) for e_ in (False, True) for r_ in (1, 2) for l_ in (False, True)]
+    if not ok:
+        # the source no longer has the if-chain shape (Enum selector + dispatch table, singledispatch …): the domain is
+        # finite (16 cells), so the table is DERIVED from the behaviour of the real class instead
+        try:
+            table = [(s_, e_, r_, l_, _elbo_branch_by_behaviour(s_, e_, r_, l_))
+                     for s_ in (False, True) for e_ in (False, True) for r_ in (1, 2) for l_ in (False, True)]
+            ok = all(t[4] != "unknown" for t in table)
+            note = "branch table derived from the behaviour of the real class (source shape not recognised: " + (note or "unknown branch") + ")"
+            ELBO_ROUTE[0] = "behaviour (real ELBO driven with stub p/q on each of the 16 cells)"
+        except Exception as e:  # noqa: BLE001
+            ok = False
+            note += f"; behavioural derivation failed: {type(e).__name__}: {e}"
     tf = lambda b: "true" if b else "false"  # noqa: E731
     rows = ",\n".join(f"  ⟨{tf(s_)}, {tf(e_)}, {r_}, {tf(l_)}, .{b}⟩" for s_, e_, r_, l_, b in table)
     lean = (
